@@ -204,6 +204,39 @@ def run_kern(build, opts, env, argv, mod):
         shutil.rmtree(d, ignore_errors=True)
 
 
+AFTER_SCRIPT = '''\
+import atexit, sys
+import kernprof
+from line_profiler import profile
+%(pre)s
+with open("inner.py", "w") as fh:
+    fh.write("x = 1\\n")
+kernprof.main(%(args)r)
+def f():
+    return 1
+g = profile(f)
+print("LPV14R", g is f, profile.enabled, file=sys.stderr)
+profile.write_config.update(lprof=False, text=False, timestamped_text=False, stdout=False)
+'''
+PRE_STATES = {'untouched': ('', 'True False'), 'enabled': ('profile.enable()', 'False True'), 'enabled-then-disabled': ('profile.enable()\nprofile.disable()', 'True False'),
+              'disabled': ('profile.disable()', 'True False')}
+
+
+def run_after(build, pre, args):
+    """an in-process kernprof run between the application's own use of the decorator and later decorations: the decorator is back to what it was"""
+    d = tempfile.mkdtemp(prefix='c14a-', dir=SCRATCH_ROOT)
+    try:
+        with open(os.path.join(d, 'app.py'), 'w') as fh:
+            fh.write(AFTER_SCRIPT % {'pre': PRE_STATES[pre][0], 'args': args})
+        e = real_env(build)
+        e.pop('LINE_PROFILE', None)
+        p = subprocess.run([PY, 'app.py'], cwd=d, env=e, capture_output=True, text=True, timeout=180)
+        marker = [l for l in p.stderr.splitlines() if l.startswith('LPV14R ')]
+        return {'rc': p.returncode, 'after': marker[0][7:] if marker else None, 'stderr_tail': p.stderr[-300:]}
+    finally:
+        shutil.rmtree(d, ignore_errors=True)
+
+
 def kern_check(opts, r):
     """the property under kernprof: the decorator hands its functions to kernprof's profiler (so they are in kernprof's output),
     creates no profiler of its own and writes no output of its own"""
@@ -346,8 +379,16 @@ def run(ctx):
         if why:
             ctx.fail('under kernprof: ' + why, {'finding_class': None, 'kern_case': [opts, env, argv, mod], 'real': r})
     ctx.coverage['kernprof_runs'] = len(kcs)
+    acs = [(pre, args) for pre in PRE_STATES for args in (['-l', 'inner.py'], ['inner.py'], ['-b', 'inner.py'])]
+    with cf.ThreadPoolExecutor(max_workers=12) as ex:
+        ares = list(ex.map(lambda c: run_after(build, *c), acs))
+    for (pre, args), r in zip(acs, ares):
+        if r['rc'] != 0 or r['after'] != PRE_STATES[pre][1]:
+            ctx.fail('after an in-process kernprof run the decorator is not back to deciding as before', {'finding_class': None, 'after_case': [pre, args],
+                                                                                                         '[decoration returns f itself, enabled]': r['after'], 'expected': PRE_STATES[pre][1], 'real': r})
+    ctx.coverage['after_kernprof_cases'] = len(acs)
     ctx.coverage.update({
-        'evaluations': len(cases) + len(shows) + len(ecs) + len(kcs), 'distinct_nontrivial': len(nontrivial),
+        'evaluations': len(cases) + len(shows) + len(ecs) + len(kcs) + len(acs), 'distinct_nontrivial': len(nontrivial),
         'rule': '%d LINE_PROFILE spellings (unset, empty, every letter case of the falsy words, near misses, non-ASCII look-alikes) x %d argv shapes '
                 'x one decoration; every history of length <= %d over {decorate, enable, enable(prefix), disable} in 5 environments; random '
                 'histories with kernprof\'s hook; show() under all 16 write_config subsets x 2 prefixes; %d real interpreter exits; the decorator in a program run by the real kernprof (10 option sets x LINE_PROFILE x --line-profile x script/-m). '
